@@ -120,6 +120,15 @@ func refApply(t *types.Type, m map[string]*types.Type, fuel int) *types.Type {
 			ps[i] = refApply(p, m, fuel)
 		}
 		return types.Fun(f.Name, ps, refApply(f.Return, m, fuel))
+	case types.KNum, types.KStr, types.KBool, types.KTime, types.KBot, types.KTop:
+		return t
+	default: // tuple
+		vs := t.Tuple().Val
+		out := make([]*types.Type, len(vs))
+		for i, v := range vs {
+			out[i] = refApply(v, m, fuel)
+		}
+		return types.Tuple(out)
 	}
 	return t
 }
@@ -349,4 +358,162 @@ func H17_alias() {
 	sa, ta := refApply(s, m, 8), refApply(t, m, 8)
 	sv.Assert("substitution-makes-both-sides-equal", RefTypeEq(sa, ta))
 	sv.Assert("result-is-the-common-instance", RefTypeEq(refApply(u, m, 8), sa))
+}
+
+// H17_shared: types are graphs, not trees - a type object may sit at two
+// positions (the checker hands out the very object stored in the environment
+// for every use of a variable). Equality must compare what stands opposite
+// each position, however often it has met the node before: the left type
+// shares one composite node under both slots, the right one is built from
+// fresh nodes and may differ at either slot.
+func H17_shared() {
+	comp := func(name string) *types.Type {
+		switch sv.Choice(name, 6) {
+		case 0:
+			return types.List(types.Num)
+		case 1:
+			return types.List(types.Str)
+		case 2:
+			return types.Map(types.Str, types.Num)
+		case 3:
+			return ObjT([]string{"a"}, []*types.Type{types.Num})
+		case 4:
+			return types.Maybe(types.Num)
+		default:
+			return types.List(types.List(types.Num))
+		}
+	}
+	shared, other1, other2 := comp("shared"), comp("r1"), comp("r2")
+	kind := sv.Choice("kind", 5)
+	mk := func(x, y *types.Type) *types.Type {
+		switch kind {
+		case 0:
+			return ObjT([]string{"a", "b"}, []*types.Type{x, y})
+		case 1:
+			return types.Fun("f", []*types.Type{x}, y)
+		case 2:
+			return types.Fun("f", []*types.Type{x, y}, types.Num)
+		case 3:
+			return types.List(ObjT([]string{"p", "q"}, []*types.Type{x, y}))
+		default:
+			return types.Tuple([]*types.Type{x, y})
+		}
+	}
+	left := mk(shared, shared)
+	right := mk(other1, other2)
+	want := RefTypeEq(left, right)
+	sv.Assert("equals-iff-structurally-identical-(shared-node-left)", types.Equals(left, right) == want)
+	sv.Assert("equals-iff-structurally-identical-(shared-node-right)", types.Equals(right, left) == want)
+	sv.Reach("compared")
+}
+
+// concrete side of a match: a leaf, ⊥, or one constructor over them
+func (g *tgen) conc(name string) *types.Type {
+	leaf := func(k int) *types.Type {
+		switch k {
+		case 0:
+			return types.Num
+		case 1:
+			return types.Str
+		default:
+			return types.Bottom
+		}
+	}
+	k := sv.Choice(name, 9)
+	l := leaf(k % 3)
+	switch k / 3 {
+	case 0:
+		return l
+	case 1:
+		return types.List(l)
+	default:
+		return types.Map(types.Str, l)
+	}
+}
+
+// H17_repeat: a pattern in which one variable occurs twice, matched against
+// a variable-free type whose two positions hold a leaf, the empty-container
+// element type ⊥, or a container of either: unification succeeds exactly
+// when both positions hold the same type (⊥ is a type of its own here: a
+// variable already bound to list[num] does not also match list[⊥]), in
+// either order of the two positions.
+func H17_repeat() {
+	g := &tgen{va: types.TyVar("a"), vb: types.TyVar("b"), vars: true}
+	kind := sv.Choice("kind", 4)
+	wrap := sv.Choice("wrap", 3)
+	pv := func() *types.Type {
+		switch wrap {
+		case 0:
+			return g.va
+		case 1:
+			return types.List(g.va)
+		default:
+			return types.Maybe(g.va)
+		}
+	}
+	cw := func(t *types.Type) *types.Type {
+		switch wrap {
+		case 0:
+			return t
+		case 1:
+			return types.List(t)
+		default:
+			return types.Maybe(t)
+		}
+	}
+	mk := func(x, y *types.Type) *types.Type {
+		switch kind {
+		case 0:
+			return ObjT([]string{"a", "b"}, []*types.Type{x, y})
+		case 1:
+			return types.Fun("f", []*types.Type{x}, y)
+		case 2:
+			return types.Fun("f", []*types.Type{x, y}, types.Num)
+		default:
+			return types.Tuple([]*types.Type{x, y})
+		}
+	}
+	c1, c2 := g.conc("c1"), g.conc("c2")
+	pat, con := mk(pv(), pv()), mk(cw(c1), cw(c2))
+	m := map[string]*types.Type{}
+	var u *types.Type
+	cls := sv.Outcome(func() { u = types.Unify(pat, con, m) })
+	sv.Assert("unify-does-not-fail-internally", cls == "ok")
+	if cls != "ok" {
+		return
+	}
+	// The rules (types/unify.go): a variable that is already bound matches
+	// only a type equal to its binding; the one place where ⊥ is let through
+	// is an argument position of a function type, where the pattern has been
+	// instantiated before it meets the argument and ⊥ on the argument's side
+	// stands for "the element type of an empty literal".
+	want := RefTypeEq(c1, c2)
+	if kind == 2 {
+		want = refBotMatch(cw(c1), cw(c2))
+	}
+	sv.Assert("repeated-variable-matches-only-where-the-rules-allow", (u != nil) == want)
+	if u != nil && RefTypeEq(c1, c2) {
+		sv.Reach("unified")
+		sv.Assert("substitution-makes-both-sides-equal", RefTypeEq(refApply(pat, m, 8), con))
+	}
+}
+
+// refBotMatch: x and y are equal, except that y may have ⊥ where x has any
+// (variable-free) type.
+func refBotMatch(x, y *types.Type) bool {
+	if y.Kind == types.KBot {
+		return true
+	}
+	if x.Kind != y.Kind {
+		return false
+	}
+	switch x.Kind {
+	case types.KList:
+		return refBotMatch(x.List().El, y.List().El)
+	case types.KMap:
+		return refBotMatch(x.Map().Key, y.Map().Key) && refBotMatch(x.Map().Val, y.Map().Val)
+	case types.KMaybe:
+		return refBotMatch(x.Maybe().Elem, y.Maybe().Elem)
+	}
+	return RefTypeEq(x, y)
 }
